@@ -75,7 +75,9 @@ class StringSerializableRegistry:
         """
 
         def decorator(cls):
-            self.types.append(cls)
+            # Class is registered once: otherwise `remove` unregisters only the first copy
+            if cls not in self.types:
+                self.types.append(cls)
             for t in replace_types:
                 self.replaces.add((t, cls))
             return cls
